@@ -69,6 +69,7 @@ func (t TriState) String() string {
 type deviationPresence struct {
 	hasMinElements bool
 	hasMaxElements bool
+	hasUnits       bool
 }
 
 // Entry represents a single schema tree node, which can be a directory
@@ -1098,6 +1099,7 @@ func ToEntry(n Node) (e *Entry) {
 			}
 			if v != nil {
 				e.Units = v.asString()
+				e.deviatePresence.hasUnits = true
 			}
 		// TODO(borman): unimplemented keywords
 		case "belongs-to",
@@ -1312,7 +1314,7 @@ func (e *Entry) ApplyDeviate(deviateOpts ...DeviateOpt) []error {
 						deviatedNode.ListAttr.MaxElements = devSpec.ListAttr.MaxElements
 					}
 
-					if devSpec.Units != "" {
+					if devSpec.Units != "" || devSpec.deviatePresence.hasUnits {
 						deviatedNode.Units = devSpec.Units
 					}
 
